@@ -26,6 +26,8 @@ def obligation_smt2(ob, axioms) -> str:
     return s.to_smt2()
 
 
+SEED_MARK = "; seed:"
+EARLY_MARK = "; early attempt on the full hypothesis set\n"
 QFNRA_MARK = "; tactic:qfnra (quantifier-free, uninterpreted applications abstracted)\n"
 
 
@@ -42,6 +44,11 @@ def _solve_z3_text(args):
             s = z3.Solver(ctx=ctx)
             s.set("timeout", timeout_ms)
             s.set("rlimit", rlimit)
+            if smt2.startswith(SEED_MARK):
+                try:
+                    s.set("random_seed", int(smt2[len(SEED_MARK):].split("\n", 1)[0]))
+                except Exception:
+                    pass
         s.from_string(smt2)
         r = s.check()
         verdict = {"unsat": "proved", "sat": "refuted"}.get(str(r), "unknown")
